@@ -23,7 +23,7 @@ The relevant code is in: {files}. Mechanisms involved:
 
 Your task: produce {n} different, independent code changes (mutations) to odc-geo, each of which
  (a) BREAKS the property above (for some input / configuration / sequence / schedule),
- (b) still imports/compiles and keeps the EXISTING test-suite passing: FIRST record the baseline with `cd {wt} && PYTHONPATH={wt} /venv/bin/python -m pytest -q -p no:cacheprovider -x -q tests 2>&1 | tail` is too coarse — instead run `PYTHONPATH={wt} /venv/bin/python -m pytest -q -p no:cacheprovider tests 2>&1 | grep -E "^(FAILED|ERROR)" | sort > out/baseline.txt` (a handful of tests fail already without any change — that set is the baseline); after each mutation the set of FAILED/ERROR tests must be exactly the same,
+ (b) still imports/compiles and keeps the EXISTING test-suite passing. FIRST record the baseline: `cd {wt} && mkdir -p out && PYTHONPATH={wt} /venv/bin/python -m pytest -q -p no:cacheprovider tests 2>&1 | grep -E "^(FAILED|ERROR)" | sort > out/baseline.txt` (a handful of tests fail already without any change — that set is the baseline). After each mutation the set of FAILED/ERROR tests must be exactly the same,
  (c) is realistic — the kind of slip a maintainer could make in a refactor or "optimisation" (off-by-one, wrong comparison operator, floor vs ceil, swapped axis or argument, dropped clamp/check/bookkeeping update, wrong branch, stale variable, wrong dict key, missing re-check), NOT sabotage like `raise`/`return None`/random behaviour, and
  (d) needs something SPECIFIC to manifest: an unusual input class, a boundary value, a particular configuration or option combination, a multi-step sequence, a particular interleaving, or two cooperating sites that each look fine alone. Ordinary simple use (the happy path the README shows) should still work with the mutation applied. Prefer mutations in DIFFERENT functions/clauses of the property.
 
